@@ -9,7 +9,7 @@ def sig_of(rej, scn):
     det = "+".join(sorted(rej.get("detail") or []))
     if rej.get("why") == "hang":
         return "C04:hang:%s:%s%s" % (rej.get("at"), path, flood)
-    return "C04:%s:%s:%s%s:%s" % (rej.get("why"), rej.get("at"), path, flood, det)
+    return "C04:%s:%s:%s%s" % (rej.get("why"), rej.get("at"), path, flood)
 
 
 def main(c):
